@@ -1878,8 +1878,11 @@ class CParser:
             tok = self._advance()
             result = self._try_parse_paren_type_name()
             if result is not None:
-                typ, _, _ = result
-                return c_ast.UnaryOp(tok.value, typ, self._tok_coord(tok))
+                typ, mark, _ = result
+                if self._peek_type() != "LBRACE":
+                    return c_ast.UnaryOp(tok.value, typ, self._tok_coord(tok))
+                # 'sizeof (T){...}': the operand is a compound literal.
+                self._reset(mark)
             expr = self._parse_unary_expression()
             return c_ast.UnaryOp(tok.value, expr, self._tok_coord(tok))
 
@@ -1905,11 +1908,15 @@ class CParser:
                 init = self._parse_initializer_list()
                 self._accept("COMMA")
                 self._expect("RBRACE")
-                return c_ast.CompoundLiteral(typ, init)
+                # A compound literal is a postfix expression like any other:
+                # '(T){1}.a', '(int[]){1, 2}[0]'.
+                expr = c_ast.CompoundLiteral(typ, init)
             else:
                 self._reset(mark)
+                expr = self._parse_primary_expression()
+        else:
+            expr = self._parse_primary_expression()
 
-        expr = self._parse_primary_expression()
         while True:
             if self._accept("LBRACKET"):
                 sub = self._parse_expression()
